@@ -251,6 +251,36 @@ theorem vote_sig_binds {H : Type} (hash : Bytes → H) (hinj : ∀ a b, hash a =
   cases v; cases w
   simp_all
 
+/-! ### the two-part header: validity = exactly one part; for valid headers the accessors read the hashed part -/
+
+/-- **valid_header_accessors_hashed** — in a valid header every accessor reads a field of the very part whose
+encoding is the pre-image of `Hash()`; together with `proposed_hash_binds` / `empty_hash_binds` the hash binds
+everything the node acts on. -/
+theorem valid_header_accessors_hashed (h : HeaderM) (hv : h.valid = true) :
+    (∃ p, h.proposed = some p ∧ h.empty = none ∧ h.hashMsg = some (proposedSchema, proposedMsg p) ∧
+      h.height = some p.height ∧ h.parentHash = some p.parentHash ∧ h.root = some p.root ∧
+      h.identityRoot = some p.identityRoot ∧ h.seed = some p.blockSeed ∧ h.time = some p.time ∧
+      h.flags = some p.flags) ∨
+    (∃ e, h.empty = some e ∧ h.proposed = none ∧ h.hashMsg = some (emptySchema, emptyMsg e) ∧
+      h.height = some e.height ∧ h.parentHash = some e.parentHash ∧ h.root = some e.root ∧
+      h.identityRoot = some e.identityRoot ∧ h.seed = some e.blockSeed ∧ h.time = some e.time ∧
+      h.flags = some e.flags) := by
+  obtain ⟨p, e⟩ := h
+  cases p <;> cases e <;> simp [HeaderM.valid] at hv
+  · right; exact ⟨_, rfl, rfl, rfl, rfl, rfl, rfl, rfl, rfl, rfl, rfl⟩
+  · left; exact ⟨_, rfl, rfl, rfl, rfl, rfl, rfl, rfl, rfl, rfl, rfl⟩
+
+/-- **two_part_header_splits** — with both parts present the hash is taken over the proposed part while `Root()`
+(likewise `IdentityRoot/Seed/Time/Flags`) reads the empty part: the empty part can be changed at will without
+changing the hash.  This is why such a header must be invalid. -/
+theorem two_part_header_splits (p : ProposedHdr) (e e' : EmptyHdr) :
+    (⟨some p, some e⟩ : HeaderM).hashMsg = (⟨some p, some e'⟩ : HeaderM).hashMsg ∧
+    (⟨some p, some e⟩ : HeaderM).root = some e.root ∧ (⟨some p, some e'⟩ : HeaderM).root = some e'.root ∧
+    (⟨some p, some e⟩ : HeaderM).valid = false :=
+  ⟨rfl, rfl, rfl, rfl⟩
+
+example : (⟨none, none⟩ : HeaderM).valid = false := rfl
+
 /-! ### certificate compression binds every signed vote field (`types.go:1009`, `blockchain.go:2428`) -/
 
 /-- **expand_compress** — for votes that share round, step, parent hash and voted hash (what a certificate is made
